@@ -102,7 +102,21 @@ def handle(case):
                       "witness": {"block": evm.to_plain_string(block), "reason": str(reason)[:200]}})
     need, delta = evm.stack_effect(block)
     sample = None
-    for kind, mb in mutants(block, rnd, case.get("n_mut", 5)):
+    muts = mutants(block, rnd, case.get("n_mut", 5))
+    if case.get("stmts"):
+        # reordering mutants: two statements (stack-neutral groups of instructions) exchanged or one moved
+        st = [[tuple(x) for x in s_] for s_ in case["stmts"]]
+        muts = []
+        for i in range(len(st) - 1):
+            sw = st[:i] + [st[i + 1], st[i]] + st[i + 2:]
+            muts.append(("reordered statements", [p for s_ in sw for p in s_]))
+        if len(st) >= 3:
+            i, j = rnd.sample(range(len(st)), 2)
+            mv = list(st)
+            x = mv.pop(i)
+            mv.insert(j, x)
+            muts.append(("moved statement", [p for s_ in mv for p in s_]))
+    for kind, mb in muts:
         try:
             need2, delta2 = evm.stack_effect(mb)
         except KeyError:
@@ -164,6 +178,13 @@ def run():
             ["-greedy", "-size"]]
     cases = common.gen_cases(n, common.seed(), opts, kinds=["grammar", "mem", "rule", "short", "split", "grammar"],
                              k_states=20 if quick else 40)
+    rnd = random.Random(common.seed() + 5)
+    for i in range(n // 3):
+        stmts, nin = gen.gen_stmt_block(rnd)
+        o = opts[i % len(opts)]
+        cases.append({"block": [p for s_ in stmts for p in s_], "stmts": stmts, "opts": o, "_group": " ".join(o),
+                      "sseed": rnd.getrandbits(30), "kind": "statements", "k": 24, "idx": n + i})
+    cases.sort(key=lambda c: c["_group"])
     col = common.Collector(r)
     st = common.run_pool("monitors.c05:handle", cases, col, cpu_budget=60.0)
     c = col.counts
